@@ -314,6 +314,9 @@ def insertion_effect(model, X, insertions, left=False, args=None, func=predict,
 	additional_func_kwargs = additional_func_kwargs or {}
 	X_var = []
 
+	if ((insertions[:, 0] < 0) | (insertions[:, 0] >= X.shape[0])).any():
+		raise IndexError("insertions name an example that is not in X")
+
 	for i in range(X.shape[0]):
 		insertions_ = insertions[insertions[:, 0] == i]
 		insertions_ = insertions_[torch.argsort(insertions_[:, 1], 
